@@ -25,7 +25,7 @@ def units():
                         "--generate-function-body-options", "nondet-return"]),
         U("header_read", "h_header_read", "header_read"),
         U("header_seek", "h_header_seek", "header_seek", props=["C03", "C14", "C15"],
-          loops={"header_seek": [{"loop_id": 0, "assigns_locals": True,
+          loops={"header_seek": [{"loop_id": 0, "assigns_locals": True, "optional": True,
                                   "assigns": "psf->error, psf->pipeoffset, psf->syserr, __CPROVER_object_whole (&gio)",
                                   "invariants": "skip <= __CPROVER_loop_entry (skip) && gio.fseek_calls == __CPROVER_loop_entry (gio.fseek_calls)",
                                   "decreases": "skip"}]}),
